@@ -22,7 +22,7 @@ from .contract import Contract, Loop
 from .source import (MissingFunction, Module, OutOfSubset, dotted_to_relpath,
                      find_function, load_module, loops_in, strip_docstring)
 from .spec import SPECS, Spec
-from .values import (V, VBool, VBound, VClosure, VInt, VMatch, VNone, VOpaque, VPy,
+from .values import (V, VBool, VBound, VClosure, VInt, VMatch, VNone, VOpaque, VOptInt, VPy,
                      VRec, VRef, VSeq, VStr, VStrJoin, VTuple, is_concrete_bool)
 
 # -------------------------------------------------------------------------------------------
@@ -171,6 +171,23 @@ def is_str_lit(t):
     return z3.is_string_value(t)
 
 
+def after_last(path, s, sep):
+    """Text after the last occurrence of the one-character string `sep` in s (s itself if there is none),
+    introduced by its characterisation  s = pre ++ sep ++ tail,  sep not in tail  (no seq.last_indexof)."""
+    cache = path.__dict__.setdefault("_after_last", {})
+    key = (s.get_id(), sep.get_id())
+    if key in cache:
+        return cache[key]
+    pre = path.fresh("al.pre", z3.StringSort())
+    tail = path.fresh("al.tail", z3.StringSort())
+    res = path.fresh("al", z3.StringSort())
+    path.add_axiom(z3.If(z3.Contains(s, sep),
+                         z3.And(s == z3.Concat(pre, sep, tail), z3.Not(z3.Contains(tail, sep)), res == tail),
+                         res == s))
+    cache[key] = (res, pre)
+    return cache[key]
+
+
 def spaces(n):
     """`" " * n` as an uninterpreted function with its two defining facts (instantiated)."""
     f = z3.Function("spaces", z3.IntSort(), z3.StringSort())
@@ -185,6 +202,8 @@ def space_axioms(n):
     return [
         z3.Length(t) == z3.If(n > 0, n, 0),
         z3.InRe(t, z3.Star(z3.Re(" "))),
+        z3.Not(z3.Contains(t, z3.StringVal("\n"))),
+        z3.Not(z3.Contains(t, z3.StringVal("\t"))),
     ]
 
 
@@ -400,6 +419,8 @@ def wrap_kind(kind: str, t) -> V:
         return VStr(t)
     if kind == "bool":
         return VBool(t)
+    if kind == "optint":
+        return VOptInt(t)
     if kind == "opaque":
         return VOpaque(t)
     if kind == "ref":
@@ -414,7 +435,13 @@ def wrap_kind(kind: str, t) -> V:
 
 def unwrap(v: V, kind: str | None = None):
     """z3 term of a value (for storing into sequences / comparing)."""
-    if isinstance(v, (VInt, VBool, VStr, VSeq, VRef, VOpaque, VMatch)):
+    if kind == "optint" and not isinstance(v, VOptInt):
+        O = ty.optint_sort()
+        if isinstance(v, VNone):
+            return O.none
+        if isinstance(v, VInt):
+            return O.some(v.t)
+    if isinstance(v, (VInt, VBool, VStr, VSeq, VRef, VOpaque, VMatch, VOptInt)):
         return v.t
     if isinstance(v, VRec):
         dt, fields = ty.record(v.cls)
